@@ -239,6 +239,8 @@ def lower(stmts_or_lines, dialect):
                         p.decls[key] = (dims, tname, slen)
                         p.declared_order.append((key, len(p.ins)))
                 p.emit("dim", st[1])
+            elif k == "line":
+                p.emit("newline")
             elif k == "rem" or k == "type" or k == "base" or k == "os":
                 p.emit("nop", k)
             else:
@@ -295,6 +297,8 @@ class Machine:
         kind = self.kind_of_name(name)
         if self.dialect == "b09" and self.init_mode == "zero" and key not in st.defined:
             st.trace.append(("uninitialised-read", key))
+        if self.dialect == "b09" and key.startswith("TMP_") and key not in st.defined:
+            st.trace.append(("tmp-read-before-write", key))
         if self.init_mode == "symbolic":
             v = (kind, self.sem.const("init_" + key, kind))
         else:
@@ -527,6 +531,12 @@ class Machine:
         """execute one instruction; returns True to continue, None when the path ended, or a list of successor states"""
         k = ins[0]
         sem = self.sem
+        if k == "newline":
+            # temporaries are per statement group: one physical line of the emitted text
+            st.defined = {d for d in st.defined if not d.startswith("TMP_")}
+            st.pc += 1
+            st.steps -= 1
+            return True
         if k in ("label", "nop", "dim", "tron", "troff"):
             if k == "dim":
                 for d in ins[1]:
@@ -534,7 +544,18 @@ class Machine:
             st.pc += 1
             return True
         if k == "assign":
-            self.assign(st, ins[1], self.ev(st, ins[2]))
+            lv = ins[1]
+            if lv[0] == "idx" and self.dialect == "cb":
+                # Color BASIC's LET locates the target (evaluating its subscripts) before it evaluates the value
+                idx = [self.num(st, x) for x in lv[2]]
+                val = self.ev(st, ins[2])
+                kind = self.kind_of_name(lv[1])
+                if val[0] != kind:
+                    raise TypeErr("value of the wrong type assigned to an array element")
+                arr = self.array(st, lv[1])
+                st.arrays[lv[1].upper()] = z3.Store(arr, self.index_key(idx), val[1])
+            else:
+                self.assign(st, lv, self.ev(st, ins[2]))
             st.pc += 1
             return True
         if k == "print":
